@@ -18,10 +18,16 @@ import (
 
 // ---------------------------------------------------------------- records
 
+var recordTmpDir string
+
 func makeRecord(res *distiller.Result, err error) *plan.Record {
 	r := &plan.Record{}
 	if err != nil {
+		// the scratch path of a File op differs from process to process
 		r.Err = err.Error()
+		if recordTmpDir != "" {
+			r.Err = strings.ReplaceAll(r.Err, recordTmpDir, "$TMP")
+		}
 	}
 	if res == nil {
 		r.NilResult = true
